@@ -10,6 +10,7 @@ import (
 	"runtime/debug"
 	"runtime/pprof"
 	"sort"
+	"strconv"
 	"strings"
 	"sync"
 	"time"
@@ -56,6 +57,7 @@ func main() {
 	tags := flag.String("tags", "", "build tags")
 	trace := flag.Bool("trace", false, "trace SSA execution")
 	slog := flag.String("solver-log", "", "write the SMT-LIB dialogue of worker 0 here")
+	argList := flag.String("args", "", "explicit comma-separated list of integer arguments (overrides -nmin/-nmax)")
 	cpuprof := flag.String("cpuprofile", "", "write a CPU profile here")
 	flag.Parse()
 	if os.Getenv("GOGC") == "" {
@@ -156,7 +158,19 @@ func main() {
 				continue
 			}
 			if fn.Signature.Params().Len() == 1 {
-				for a := *nmin; a <= *nmax; a++ {
+				var as []int
+				if *argList != "" {
+					for _, f := range strings.Split(*argList, ",") {
+						if v, err := strconv.Atoi(strings.TrimSpace(f)); err == nil {
+							as = append(as, v)
+						}
+					}
+				} else {
+					for a := *nmin; a <= *nmax; a++ {
+						as = append(as, a)
+					}
+				}
+				for _, a := range as {
 					jobs = append(jobs, &job{fn: fn, arg: a, res: &interp.JobResult{Harness: full, Arg: a}})
 				}
 			} else {
